@@ -56,7 +56,7 @@ def run(ctx):
         nign += 1
         ctx.inst('N1', '%s %s' % (struct, name), not used, 'ignorable field(s) "%s" read by %s(): value %s' % (
             name[4:], kind, 'reaches nothing' if not used else 'IS USED'), c.span, key='%s|N1|%s|%s' % (site[0], struct, name))
-    ctx.floor('ignorable reads', nign, 30)
+    ctx.floor('ignorable reads', nign, 22)
 
     # ---------- N2 chunk-local buffers
     pf = ctx.anchor('asefile::parse::parse_frame')
@@ -202,7 +202,7 @@ def run(ctx):
     render.cel_rows_grow_only(ctx, rule='N9')
     import iorules
     rb = [b_ for b_ in fx.bodies if b_.name.startswith('asefile::reader::AseReader::')]
-    iorules.exact_reads_only(ctx, rb, 'N2')
+    iorules.exact_reads_only(ctx, rb, 'N2', error_mapping_ok=True)
     iorules.take_bytes_length_check(ctx, 'N2')
     ctx.samples = [i for i in ctx.instances if i['rule'] in ('N1', 'N2', 'N3', 'N4', 'N6', 'N8')][:18]
 
